@@ -84,20 +84,182 @@ Lemma fold_emit_fields t l : forall s,
   let s' := fold_left (fun acc k => emit (OWire t k) acc) l s in obuf s' = obuf s /\ queue s' = queue s /\ gout s' = gout s.
 Proof. induction l as [|k l IH]; intros s; cbn [fold_left]; auto. destruct (IH (emit (OWire t k) s)) as (A & B & C). auto. Qed.
 
-(* an iterate loses nothing, invents nothing and keeps the order *)
-Theorem fifo_thm s : accepted (iterate6 s) = accepted s /\ gout (iterate6 s) = gout s.
+Fixpoint new_drops (l : list out) : list call :=      (* of a (reversed) piece of trace *)
+  match l with [] => [] | ODrop _ k :: t => new_drops t ++ [k] | _ :: t => new_drops t end.
+Lemma new_drops_app a b : new_drops (a ++ b) = new_drops b ++ new_drops a.
+Proof. induction a as [|o a IH]; cbn; [rewrite app_nil_r; auto|]. destruct o; auto. rewrite IH, app_assoc. reflexivity. Qed.
+(* frames lost in devconn's send buffer (overflow, or a hard error of espconn_sent) *)
+Fixpoint lost (l : list out) : list call :=
+  match l with [] => [] | OLost _ k :: t => lost t ++ [k] | _ :: t => lost t end.
+Lemma lost_app a b : lost (a ++ b) = lost b ++ lost a.
+Proof. induction a as [|o a IH]; cbn; [rewrite app_nil_r; auto|]. destruct o; auto. rewrite IH, app_assoc. reflexivity. Qed.
+Lemma wired_app' a b : wired (a ++ b) = wired b ++ wired a.
+Proof. induction a as [|o a IH]; cbn; [rewrite app_nil_r; auto|]. destruct o; auto. rewrite IH, app_assoc. reflexivity. Qed.
+
+(* what a piece of the transport (data_write / the OUT half of srpc_iterate) may do: it moves frames, touches nothing else *)
+Record tp (s s' : st) : Prop := {
+  tp_gout : gout s' = gout s; tp_slots : slots s' = slots s; tp_reg : reg s' = reg s; tp_conn : conn s' = conn s;
+  tp_outs : exists add, outs s' = add ++ outs s /\ new_drops add = [] /\
+            (* nothing lost: the frames keep their order on the way queue -> proto buffer (-> send buffer) -> wire *)
+            (lost add = [] -> wired add ++ map fst (obuf s') ++ queue s' = map fst (obuf s) ++ queue s)
+}.
+Lemma tp_refl s : tp s s.
+Proof. constructor; auto. exists []. auto. Qed.
+Lemma tp_trans a b d : tp a b -> tp b d -> tp a d.
 Proof.
-  unfold iterate6. destruct (conn s); [|auto].
+  intros [A1 A2 A3 A4 (x & Ox & Dx & Cx)] [B1 B2 B3 B4 (y & Oy & Dy & Cy)]. constructor; try congruence.
+  exists (y ++ x). split; [rewrite Oy, Ox, app_assoc; reflexivity|]. split; [rewrite new_drops_app, Dx, Dy; reflexivity|].
+  rewrite lost_app. intros L. apply app_eq_nil in L. destruct L as [Lx Ly].
+  rewrite wired_app', <- app_assoc, (Cy Ly). exact (Cx Lx).
+Qed.
+
+Lemma staged_split l : let '(a, b) := staged l in l = zeros a ++ b.
+Proof.
+  induction l as [|[k r] l IH]; cbn [staged]; [reflexivity|]. destruct (r =? 0) eqn:E; [|reflexivity].
+  apply Z.eqb_eq in E. subst r. destruct (staged l) as [a b]. cbn [zeros map app]. f_equal. exact IH.
+Qed.
+Lemma map_fst_zeros ks : map fst (zeros ks) = ks.
+Proof. induction ks as [|k ks IH]; [reflexivity|]. cbn [zeros map fst]. f_equal. exact IH. Qed.
+Lemma put_wire_spec ks : forall s, let s' := put_wire ks s in
+  gout s' = gout s /\ slots s' = slots s /\ reg s' = reg s /\ conn s' = conn s /\ obuf s' = obuf s /\ queue s' = queue s /\
+  sb_n s' = sb_n s /\ sres s' = sres s /\
+  exists add, outs s' = add ++ outs s /\ new_drops add = [] /\ lost add = [] /\ wired add = ks.
+Proof.
+  unfold put_wire. intros s. generalize (now s) as t. intros t. revert s.
+  induction ks as [|k ks IH]; intros s; cbn [fold_left]; [repeat split; auto; exists []; auto|].
+  destruct (IH (emit (OWire t k) s)) as (B1 & B2 & B3 & B4 & B5 & B6 & B7 & B8 & add & O & D & L & Wd). cbv zeta.
+  rewrite B1, B2, B3, B4, B5, B6, B7, B8. repeat split; auto.
+  exists (add ++ [OWire t k]). rewrite O. cbn [outs emit set_outs]. rewrite <- app_assoc. split; [reflexivity|].
+  rewrite new_drops_app, lost_app, wired_app', D, L, Wd. cbn. auto.
+Qed.
+Lemma lose_spec ks : forall s, let s' := lose ks s in
+  gout s' = gout s /\ slots s' = slots s /\ reg s' = reg s /\ conn s' = conn s /\ obuf s' = obuf s /\ queue s' = queue s /\
+  exists add, outs s' = add ++ outs s /\ new_drops add = [] /\ (ks <> [] -> lost add <> []) /\ wired add = [].
+Proof.
+  unfold lose. intros s. generalize (now s) as t. intros t. revert s.
+  induction ks as [|k ks IH]; intros s; cbn [fold_left]; [repeat split; auto; exists []; repeat split; auto; congruence|].
+  destruct (IH (emit (OLost t k) s)) as (B1 & B2 & B3 & B4 & B5 & B6 & add & O & D & L & Wd). cbv zeta.
+  rewrite B1, B2, B3, B4, B5, B6. repeat split; auto.
+  exists (add ++ [OLost t k]). rewrite O. cbn [outs emit set_outs]. rewrite <- app_assoc. split; [reflexivity|].
+  rewrite new_drops_app, lost_app, wired_app', D, Wd. cbn. split; [auto|]. split; [|auto]. intros _ E. destruct (lost add); discriminate.
+Qed.
+Lemma sent_res_fields s : let '(r, s') := sent_res s in
+  gout s' = gout s /\ slots s' = slots s /\ reg s' = reg s /\ conn s' = conn s /\ obuf s' = obuf s /\ queue s' = queue s /\
+  outs s' = outs s /\ sb_n s' = sb_n s /\ now s' = now s.
+Proof. unfold sent_res. destruct (sres s); repeat split; reflexivity. Qed.
+
+(* supla_esp_data_write: ks = the frames ending in the n bytes handed over; they take their place between the frames
+   already in the send buffer (z0) and the rest of the proto buffer *)
+Lemma dw_tp ks n s : (n <= 0 -> ks = []) ->
+  let '(z0, rest) := staged (obuf s) in
+  let s' := dw ks n s in
+  gout s' = gout s /\ slots s' = slots s /\ reg s' = reg s /\ conn s' = conn s /\ queue s' = queue s /\
+  exists add, outs s' = add ++ outs s /\ new_drops add = [] /\
+    (lost add = [] -> wired add ++ map fst (obuf s') = z0 ++ ks ++ map fst rest).
+Proof.
+  intros Hn. unfold dw. destruct (staged (obuf s)) as [z0 rest].
+  set (p := if 0 <? sb_n s then let '(r, s') := sent_res s in if r =? 0 then ([], put_wire z0 (set_sb_n 0 s')) else (z0, s') else (z0, s)).
+  assert (R : let '(z1, s1) := p in
+              gout s1 = gout s /\ slots s1 = slots s /\ reg s1 = reg s /\ conn s1 = conn s /\ queue s1 = queue s /\
+              exists a1, outs s1 = a1 ++ outs s /\ new_drops a1 = [] /\ lost a1 = [] /\ wired a1 ++ z1 = z0).
+  { unfold p. destruct (0 <? sb_n s); [|repeat split; auto; exists []; auto].
+    pose proof (sent_res_fields s) as F. destruct (sent_res s) as [r s']. destruct F as (F1 & F2 & F3 & F4 & F5 & F6 & F7 & F8 & F9).
+    destruct (r =? 0); [|repeat split; auto; exists []; rewrite F7; auto].
+    destruct (put_wire_spec z0 (set_sb_n 0 s')) as (B1 & B2 & B3 & B4 & B5 & B6 & _ & _ & add & O & D & L & Wd). cbv zeta in *.
+    cbn [gout slots reg conn queue outs set_sb_n] in *. repeat split; try congruence.
+    exists add. rewrite O, F7, Wd, app_nil_r. auto. }
+  destruct p as [z1 s1]. destruct R as (R1 & R2 & R3 & R4 & R5 & a1 & O1 & D1 & L1 & W1).
+  assert (K : forall zz sx a2, gout sx = gout s1 -> slots sx = slots s1 -> reg sx = reg s1 -> conn sx = conn s1 -> queue sx = queue s1 ->
+              outs sx = a2 ++ outs s1 -> new_drops a2 = [] -> (lost a2 = [] -> wired a2 ++ zz = z1 ++ ks) ->
+              gout (set_obuf (zeros zz ++ rest) sx) = gout s /\ slots (set_obuf (zeros zz ++ rest) sx) = slots s /\
+              reg (set_obuf (zeros zz ++ rest) sx) = reg s /\ conn (set_obuf (zeros zz ++ rest) sx) = conn s /\
+              queue (set_obuf (zeros zz ++ rest) sx) = queue s /\
+              exists add, outs (set_obuf (zeros zz ++ rest) sx) = add ++ outs s /\ new_drops add = [] /\
+                (lost add = [] -> wired add ++ map fst (obuf (set_obuf (zeros zz ++ rest) sx)) = z0 ++ ks ++ map fst rest)).
+  { intros zz sx a2 G1 G2 G3 G4 G5 O2 D2 C2. cbn [gout slots reg conn queue outs obuf set_obuf].
+    split; [congruence|]. split; [congruence|]. split; [congruence|]. split; [congruence|]. split; [congruence|].
+    exists (a2 ++ a1). split; [rewrite O2, O1, app_assoc; reflexivity|].
+    split; [rewrite new_drops_app, D1, D2; reflexivity|]. rewrite lost_app, L1. cbn [app]. intros L2.
+    rewrite wired_app', map_app, map_fst_zeros, <- W1. rewrite <- !app_assoc. f_equal.
+    rewrite !app_assoc. f_equal. exact (C2 L2). }
+  assert (Klose : forall sx, sx = s1 \/ (let '(r, s2) := sent_res s1 in sx = s2) ->
+              gout (set_obuf (zeros z1 ++ rest) (lose ks sx)) = gout s /\ slots (set_obuf (zeros z1 ++ rest) (lose ks sx)) = slots s /\
+              reg (set_obuf (zeros z1 ++ rest) (lose ks sx)) = reg s /\ conn (set_obuf (zeros z1 ++ rest) (lose ks sx)) = conn s /\
+              queue (set_obuf (zeros z1 ++ rest) (lose ks sx)) = queue s /\
+              exists add, outs (set_obuf (zeros z1 ++ rest) (lose ks sx)) = add ++ outs s /\ new_drops add = [] /\
+                (lost add = [] -> wired add ++ map fst (obuf (set_obuf (zeros z1 ++ rest) (lose ks sx))) = z0 ++ ks ++ map fst rest)).
+  { intros sx Hsx.
+    assert (Fx : gout sx = gout s1 /\ slots sx = slots s1 /\ reg sx = reg s1 /\ conn sx = conn s1 /\ queue sx = queue s1 /\ outs sx = outs s1).
+    { destruct Hsx as [->|Hsx]; [repeat split; reflexivity|]. pose proof (sent_res_fields s1) as F. destruct (sent_res s1) as [r s2]. subst sx.
+      destruct F as (F1 & F2 & F3 & F4 & F5 & F6 & F7 & _). repeat split; assumption. }
+    destruct Fx as (X1 & X2 & X3 & X4 & X5 & X6).
+    destruct (lose_spec ks sx) as (B1 & B2 & B3 & B4 & _ & B6 & add & O & D & L & Wd). cbv zeta in *.
+    apply (K z1 (lose ks sx) add); try congruence.
+    intros La. rewrite Wd. cbn [app]. destruct ks as [|k ks']; [rewrite app_nil_r; reflexivity|]. exfalso. apply L; [discriminate|exact La]. }
+  destruct (0 <? sb_n s1).
+  - destruct (0 <? n) eqn:En.
+    + destruct (SEND_BUF <? sb_n s1 + n); [apply Klose; left; reflexivity|].
+      apply (K (z1 ++ ks) (set_sb_n (sb_n s1 + n) s1) []); auto.
+    + apply Z.ltb_ge in En. pose proof (Hn En) as Ek. subst ks. apply (K z1 s1 []); auto. intros _. rewrite app_nil_r. reflexivity.
+  - destruct (0 <? n) eqn:En.
+    + pose proof (sent_res_fields s1) as F. pose proof (Klose) as KL. destruct (sent_res s1) as [r s2] eqn:ES.
+      destruct F as (F1 & F2 & F3 & F4 & F5 & F6 & F7 & F8 & F9).
+      destruct ((r =? SENT_INPROGRESS) || (r =? SENT_MAXNUM)).
+      * destruct (SEND_BUF <? n); [apply KL; right; reflexivity|].
+        apply (K (z1 ++ ks) (set_sb_n n s2) []); cbn [gout slots reg conn queue outs set_sb_n]; auto.
+      * destruct (r =? 0); [|apply KL; right; reflexivity].
+        destruct (put_wire_spec (z1 ++ ks) s2) as (B1 & B2 & B3 & B4 & B5 & B6 & _ & _ & add & O & D & L & Wd). cbv zeta in *.
+        pose proof (K [] (put_wire (z1 ++ ks) s2) add) as K0. cbn [zeros map app] in K0.
+        apply K0; try congruence. intros _. rewrite Wd, app_nil_r. reflexivity.
+    + apply Z.ltb_ge in En. pose proof (Hn En) as Ek. subst ks. apply (K z1 s1 []); auto. intros _. rewrite app_nil_r. reflexivity.
+Qed.
+
+(* srpc_iterate, OUT half, and supla_esp_devconn_iterate's retry are pieces of transport *)
+Lemma drain_staged l : forall n, let '(a, b) := drain n l in staged b = ([], b).
+Proof.
+  induction l as [|[k r] l IH]; intros n; cbn [drain]; [reflexivity|].
+  destruct (r <=? n) eqn:E.
+  - specialize (IH (n - r)). destruct (drain (n - r) l) as [a b]. exact IH.
+  - apply Z.leb_gt in E. cbn [staged]. destruct (r - n =? 0) eqn:E0; [apply Z.eqb_eq in E0; lia|reflexivity].
+Qed.
+Lemma staged_zeros_app z b : staged b = ([], b) -> staged (zeros z ++ b) = (z, b).
+Proof. intros H. induction z as [|k z IH]; cbn [zeros map app staged]; [exact H|]. change (map (fun k0 => (k0, 0)) z) with (zeros z). rewrite IH. reflexivity. Qed.
+Theorem dev_iterate_tp s : tp s (dev_iterate s).
+Proof.
+  unfold dev_iterate. destruct (conn s); [|apply tp_refl].
+  pose proof (dw_tp [] 0 s ltac:(auto)) as D. pose proof (staged_split (obuf s)) as Sp. destruct (staged (obuf s)) as [z0 rest].
+  cbv zeta in D. destruct D as (D1 & D2 & D3 & D4 & D5 & add & O & Dr & C).
+  constructor; auto. exists add. split; [auto|]. split; [auto|]. intros L. rewrite app_assoc, (C L), D5, Sp, map_app, map_fst_zeros. reflexivity.
+Qed.
+Theorem iterate6_tp s : tp s (iterate6 s).
+Proof.
+  unfold iterate6. destruct (conn s); [|apply tp_refl].
   set (s1 := match queue s with k :: q => _ | [] => s end).
-  assert (A1 : accepted s1 = accepted s /\ gout s1 = gout s /\ outs s1 = outs s).
-  { unfold s1, accepted. destruct (queue s) as [|k q] eqn:EQ; [rewrite EQ; auto|]. cbn [outs obuf queue set_obuf set_queue gout].
-    rewrite map_app. cbn [map fst]. rewrite <- !app_assoc. auto. }
-  destruct A1 as (A1 & G1 & O1).
-  pose proof (drain_split SRPC_CHUNK (obuf s1)) as D. destruct (drain SRPC_CHUNK (obuf s1)) as [sent rest].
-  destruct (fold_emit_fields (now s) sent (set_obuf rest s1)) as (Fo & Fq & Fg). cbv zeta in Fo, Fq, Fg.
-  split; [|rewrite Fg; exact G1].
-  unfold accepted. rewrite wired_fold, Fo, Fq. cbn [outs obuf queue set_obuf].
-  unfold accepted in A1. rewrite <- A1. rewrite D, <- !app_assoc. reflexivity.
+  assert (T1 : tp s s1).
+  { unfold s1. destruct (queue s) as [|k q] eqn:EQ; [apply tp_refl|]. constructor; try reflexivity.
+    exists []. split; [reflexivity|]. split; [reflexivity|]. intros _. cbn [wired app obuf queue set_obuf set_queue].
+    rewrite EQ, map_app. cbn [map fst]. rewrite <- app_assoc. reflexivity. }
+  pose proof (staged_split (obuf s1)) as Sp. destruct (staged (obuf s1)) as [z0 u] eqn:ES.
+  pose proof (drain_split SRPC_CHUNK u) as Dr. destruct (drain SRPC_CHUNK u) as [done rest] eqn:ED.
+  destruct (0 <? bytes u - bytes rest) eqn:En; [|exact T1]. apply Z.ltb_lt in En.
+  eapply tp_trans; [exact T1|].
+  set (s2 := set_obuf (zeros z0 ++ rest) s1).
+  pose proof (dw_tp done (bytes u - bytes rest) s2 ltac:(lia)) as D.
+  pose proof (drain_staged u SRPC_CHUNK) as DS. rewrite ED in DS.
+  assert (E2 : staged (obuf s2) = (z0, rest)) by (unfold s2; cbn [obuf set_obuf]; apply staged_zeros_app; exact DS).
+  rewrite E2 in D. cbv zeta in D. destruct D as (D1 & D2 & D3 & D4 & D5 & add & O & Dn & C).
+  constructor; try (unfold s2 in *; cbn [gout slots reg conn set_obuf] in *; congruence).
+  exists add. split; [exact O|]. split; [exact Dn|]. intros L.
+  rewrite app_assoc, (C L), D5. unfold s2. cbn [queue set_obuf]. rewrite Sp, map_app, map_fst_zeros, Dr, <- !app_assoc. reflexivity.
+Qed.
+
+(* an iterate loses nothing, invents nothing and keeps the order -- unless the send buffer lost something *)
+Theorem fifo_thm s :
+  (forall add, outs (iterate6 s) = add ++ outs s -> lost add = []) ->
+  accepted (iterate6 s) = accepted s /\ gout (iterate6 s) = gout s.
+Proof.
+  intros NL. destruct (iterate6_tp s) as [G _ _ _ (add & O & _ & C)]. split; [|exact G].
+  unfold accepted. rewrite O, wired_app', <- app_assoc, (C (NL add O)). reflexivity.
 Qed.
 (* when the device is idle (nothing queued, nothing buffered) everything accepted is on the wire *)
 Theorem idle_thm s : queue s = [] -> obuf s = [] -> wired (outs s) = accepted s.
@@ -129,10 +291,7 @@ Proof. vm_compute. split; reflexivity. Qed.
 
 (* ---------- which calls an operation issues: everything except the handler's own result is a value or a timer state ---------- *)
 Definition isres (k : call) : bool := match k with CRes _ _ _ => true | _ => false end.
-Fixpoint new_drops (l : list out) : list call :=      (* of a (reversed) piece of trace *)
-  match l with [] => [] | ODrop _ k :: t => new_drops t ++ [k] | _ :: t => new_drops t end.
-Lemma new_drops_app a b : new_drops (a ++ b) = new_drops b ++ new_drops a.
-Proof. induction a as [|o a IH]; cbn; [rewrite app_nil_r; auto|]. destruct o; auto. rewrite IH, app_assoc. reflexivity. Qed.
+
 (* s' was reached from s issuing only calls that are not results: qa were queued, da were refused *)
 Definition nores (s s' : st) : Prop :=
   exists qa add, queue s' = queue s ++ qa /\ outs s' = add ++ outs s /\
